@@ -13,6 +13,7 @@ package main
 // Correspondence (N = 1, where the run is deterministic): result class, ids present in the target
 // afterwards and the number of calls of each kind equal the extracted model's.
 // ChunkStorage is also driven directly (retry after a failed StoreChunk).
+// Cancellation (c06_cancel.go): the same operations with the context cancelled at generated points; nil => complete.
 // CLI level: `desync make/chop/cache/tar -i` against an HTTP chunk server that fails requests.
 
 import (
@@ -383,6 +384,24 @@ func runC06(a vh.Args, o *vh.Oracle, r *vh.Result) error {
 		if c.Level == "cli" {
 			return c06CLIReplay(a, r, &c)
 		}
+		if c.Level == "library-cancel" {
+			var cc c06CancelCase
+			if err := readJSON(a.Replay, &cc); err != nil {
+				return err
+			}
+			base := cc
+			base.Cancel = c06Cancel{Mode: "never"}
+			if err := c06CancelCheck(a, r, &base, nil); err != nil {
+				return err
+			}
+			for i := 0; i < 10; i++ {
+				x := cc
+				if err := c06CancelCheck(a, r, &x, base.Calls); err != nil {
+					return err
+				}
+			}
+			return nil
+		}
 		if c.Op == "chunkstorage" {
 			return c06StorageCase(a, o, r, &c)
 		}
@@ -490,6 +509,9 @@ func runC06(a vh.Args, o *vh.Oracle, r *vh.Result) error {
 		}
 	}
 	if err := c06Storage(a, o, r, rng); err != nil {
+		return err
+	}
+	if err := c06Cancels(a, r, rng); err != nil {
 		return err
 	}
 	return c06CLI(a, r, rng)
